@@ -19,7 +19,9 @@ use std::io::{Cursor, Read, Seek, SeekFrom};
 
 pub const CHECK: Check = Check { id: "C11", level: "exploration", flavours: &["scaled", "prod"], run, replay };
 
-const RULE: &str = "cases = (plaintext length L - incl. every length up to 3 blocks + 1 chunk on the scaled constants, lengths \
+const RULE: &str = "(production flavour: plus compression-layer streams whose all-zero plaintext is longer than 2^32 bytes - \
+the image of one block repeated 1024..1029 times - compared with a virtual cursor at the end, around 2^32 and at block starts) \
+cases = (plaintext length L - incl. every length up to 3 blocks + 1 chunk on the scaled constants, lengths \
 around multiples of the chunk and block size, and long streams of 250..300 chunks (both flavours) and about 65536 chunks \
 (scaled) so that chunk indices beyond one and two bytes are reached -, layer stack in {raw, encrypt, compress, compress+encrypt}, history of \
 Seek(Start|Current|End)/stream_position/read ops with every target in [0, L]); the layer stream is produced by the \
@@ -371,6 +373,143 @@ fn case() -> impl Strategy<Value = Case> {
         })
 }
 
+// ------------------------------------------------------------ streams of 4 GiB and more
+
+/// A compression-layer stream whose plaintext (all zeros) is longer than 2^32 bytes: the compressed image of one
+/// zero block repeated, so the input stays a few tens of KiB. The cursor it is compared with is virtual: every
+/// plaintext byte is 0 and the length is known.
+#[derive(Clone, Debug, Serialize, Deserialize)]
+pub struct HugeCase {
+    pub extra_blocks: u8,
+    pub rem: u32,
+    pub encrypt: bool,
+    /// (operation 0 Seek(Start) 1 Seek(End) 2 Seek(Current) 3 position, target selector, bytes to read afterwards)
+    pub ops: Vec<(u8, u16, u16)>,
+    pub seed: u16,
+}
+
+fn huge_case() -> impl Strategy<Value = HugeCase> {
+    (0u8..6, prop_oneof![Just(0u32), Just(1), Just(1000), 0u32..BLOCK as u32], any::<bool>(), prop::collection::vec((0u8..4, any::<u16>(), prop_oneof![Just(0u16), 1u16..300]), 1..8), any::<u16>())
+        .prop_map(|(extra_blocks, rem, encrypt, ops, seed)| HugeCase { extra_blocks, rem, encrypt, ops, seed })
+}
+
+fn huge(c: &HugeCase, st: &mut Stats) -> Result<(), String> {
+    st.eval(1);
+    let pr = Params::current();
+    let n = (1u64 << 32) / BLOCK as u64 + c.extra_blocks as u64;
+    let rem = (c.rem as usize % BLOCK) as u64;
+    let len = n * BLOCK as u64 + rem;
+    // images of one full zero block and of the last partial block
+    let img = |k: usize| -> Vec<u8> {
+        let z = vec![0u8; k];
+        let s = refimpl::compress_stream(&z, pr, 1, 22);
+        let (_, start) = refimpl::parse_sizes_info(&s).expect("own sizes info");
+        s[..start].to_vec()
+    };
+    let full = img(BLOCK);
+    let mut comp = Vec::with_capacity(full.len() * n as usize + 64);
+    let mut sizes: Vec<u32> = Vec::new();
+    for _ in 0..n {
+        comp.extend_from_slice(&full);
+        sizes.push(full.len() as u32);
+    }
+    let last_len = if rem > 0 {
+        let l = img(rem as usize);
+        comp.extend_from_slice(&l);
+        sizes.push(l.len() as u32);
+        rem as u32
+    } else {
+        BLOCK as u32
+    };
+    comp.extend_from_slice(&refimpl::write_sizes_info(&refimpl::SizesInfo { compressed_sizes: sizes, last_block_size: last_len }));
+    let secret = util::seed32(c.seed as u64, "c11-huge", 0);
+    let o = EncodeOpts {
+        layers: if c.encrypt { 1 } else { 0 },
+        quality: 1,
+        lgwin: 22,
+        key: util::seed32(c.seed as u64, "c11-huge-key", 0),
+        nonce: util::seed32(c.seed as u64, "c11-huge-nonce", 0)[..8].try_into().unwrap(),
+        eph_secret: util::seed32(c.seed as u64, "c11-huge-eph", 0),
+        recipients: vec![x25519_dalek::x25519(secret, x25519_dalek::X25519_BASEPOINT_BYTES)],
+    };
+    // the compressed stream goes below the (optional) encryption layer; the header then also announces compression
+    let mut bytes = refimpl::encode_layers(&comp, &o, pr);
+    bytes[7] |= 2;
+    let r = util::catch(|| -> Result<(), String> {
+        let mut l = open_layers(&bytes, &secret)?;
+        let mut mpos: u64 = 0;
+        for (i, (kind, sel, nread)) in c.ops.iter().enumerate() {
+            // targets: the end, just below / above 2^32, block starts, anywhere
+            let t: u64 = match sel % 6 {
+                0 => len,
+                1 => len - (*sel as u64 / 6).min(len),
+                2 => (1u64 << 32) - 1 - (*sel as u64 / 6) % 300,
+                3 => ((1u64 << 32) + (*sel as u64 / 6) % 300).min(len),
+                4 => ((*sel as u64 / 6) % (n + 1)) * BLOCK as u64,
+                _ => ((*sel as u128 * len as u128) >> 16) as u64,
+            }
+            .min(len);
+            let mp = mpos;
+            let ctx = move |s: String| format!("raw{}+compress, plaintext of {len} bytes ({n} blocks + {rem}): op {i} at model position {mp}: {s}", if c.encrypt { "+encrypt" } else { "" });
+            match kind % 4 {
+                0 => {
+                    let got = l.seek(SeekFrom::Start(t)).map_err(|e| ctx(format!("Seek(Start({t})) failed: {e}")))?;
+                    if got != t {
+                        return Err(ctx(format!("Seek(Start({t})) returned {got}")));
+                    }
+                    mpos = t;
+                }
+                1 => {
+                    let d = t as i64 - len as i64;
+                    let got = l.seek(SeekFrom::End(d)).map_err(|e| ctx(format!("Seek(End({d})) failed: {e}")))?;
+                    if got != t {
+                        return Err(ctx(format!("Seek(End({d})) returned {got}, a cursor returns {t}")));
+                    }
+                    mpos = t;
+                }
+                2 => {
+                    let d = t as i64 - mpos as i64;
+                    let got = l.seek(SeekFrom::Current(d)).map_err(|e| ctx(format!("Seek(Current({d})) failed: {e}")))?;
+                    if got != t {
+                        return Err(ctx(format!("Seek(Current({d})) returned {got}, a cursor returns {t}")));
+                    }
+                    mpos = t;
+                }
+                _ => {
+                    let got = l.stream_position().map_err(|e| ctx(format!("stream_position failed: {e}")))?;
+                    if got != mpos {
+                        return Err(ctx(format!("stream_position returned {got}")));
+                    }
+                }
+            }
+            if *nread > 0 {
+                let want = (*nread as u64).min(len - mpos) as usize;
+                let mut buf = vec![0xAAu8; *nread as usize];
+                let mut got = 0usize;
+                while got < buf.len() {
+                    let k = l.read(&mut buf[got..]).map_err(|e| ctx(format!("read failed: {e}")))?;
+                    if k == 0 {
+                        break;
+                    }
+                    got += k;
+                }
+                if got != want || buf[..got].iter().any(|b| *b != 0) {
+                    return Err(ctx(format!("read of {nread} bytes delivered {got} bytes (a cursor delivers {want} zero bytes)")));
+                }
+                mpos += got as u64;
+            }
+        }
+        Ok(())
+    });
+    st.label(format!("huge:{}", if c.encrypt { "raw+encrypt+compress" } else { "raw+compress" }));
+    st.nontrivial(util::hash64(format!("huge|{c:?}").as_bytes()));
+    st.sample(|| json!({"family": "beyond 4 GiB", "plaintext_len": len, "blocks": n, "input_len": bytes.len(), "encrypt": c.encrypt, "ops": c.ops.len()}));
+    match r {
+        Ok(x) => x,
+        Err(p) => Err(format!("layer reader on a plaintext of {len} bytes {}", p.short())),
+    }
+}
+
 fn run(ctx: &Ctx) -> Report {
     let mut rep = Report::new(RULE);
     rep.assume("layer streams are produced by the independent encoder (refimpl: aes-gcm, brotli crates), not by the writer under test");
@@ -403,10 +542,17 @@ fn run(ctx: &Ctx) -> Report {
         rep.exhaustive_parts.push(format!("every plaintext length 0..={} x 4 stacks with the canonical history", 3 * BLOCK + CHUNK));
     }
     explore(&mut rep, ctx, "histories", if SCALED { ctx.n(40_000, 2_000_000) } else { ctx.n(600, 20_000) }, case, oracle);
+    if !SCALED {
+        explore(&mut rep, ctx, "beyond-4GiB", ctx.n(200, 4_000), huge_case, huge);
+    }
     rep
 }
 
 fn replay(_ctx: &Ctx, _stage: &str, case: &Value) -> Result<(), String> {
+    if _stage == "beyond-4GiB" {
+        let c: HugeCase = serde_json::from_value(case.clone()).map_err(|e| format!("HARNESS: bad replay case: {e}"))?;
+        return huge(&c, &mut Stats::default());
+    }
     let c: Case = serde_json::from_value(case.clone()).map_err(|e| format!("HARNESS: bad replay case: {e}"))?;
     oracle(&c, &mut Stats::default())
 }
